@@ -292,9 +292,9 @@ def add_stream_scn(prefix, caps=(1, 2), fut=False, shared_parent=False):
         if shared_parent:
             break
         t = Topo("bcast", 1, [1, 1])
-        threads = [sends("tx", 101, cap + 2, api=snd),
-                   [S("add_stream", "rx", new="n1"), S(rcv, "n1"), S(rcv, "rx")],
-                   [S("add_stream", "s2", new="n2"), S(rcv, "n2"), S(rcv, "s2")]]
+        threads = [sends("tx", 101, cap + 3, api=snd),
+                   [S("add_stream", "rx", new="n1"), S(rcv, "rx"), S(rcv, "n1"), S(rcv, "rx")],
+                   [S("add_stream", "s2", new="n2"), S(rcv, "s2"), S(rcv, "s2"), S(rcv, "n2")]]
         hs = ("rx", "s2", "n1", "n2")
         fin = [S("drain", h) for h in hs] + [S("fill", "tx", v=9000, n=20)] + [S("drop", "tx")] + \
               [S("drain", h) for h in hs] + [S("drop", h) for h in hs]
